@@ -1406,6 +1406,13 @@ func (w *envelopingWriter) writeBytes(data []byte) (int, error) {
 
 func (w *envelopingWriter) handleEnvelopeWritten() error {
 	w.writingEnvelope = false
+	if w.rw.op.serverEnveloper == nil {
+		// The server's protocol has no envelopes: the body was a single message
+		// whose length was declared up front, and it has been written in full.
+		err := fmt.Errorf("handler wrote more than the declared content-length of %d bytes", w.rw.contentLen)
+		w.rw.reportError(err)
+		return err
+	}
 	env, err := w.rw.op.serverEnveloper.decodeEnvelope(w.env)
 	if err != nil {
 		err = malformedRequestError(err)
@@ -1536,7 +1543,7 @@ func (w *envelopingWriter) maybeInit() {
 		return
 	}
 	w.current = w.w
-	w.remainingBytes = envelopeLen
+	w.remainingBytes = w.rw.contentLen
 }
 
 func (w *envelopingWriter) handleTrailer() error {
